@@ -177,6 +177,40 @@ pub fn fam_rfold(b: &Base, rs: &[u32], out: &mut Vec<CaseSpec>) {
     }
 }
 
+/// the negotiable timeout range (RFC 2349: 1..255 s): every logical DATA/ACK lost once and five times (`silence` =
+/// false), or the peer silent from every step (`silence` = true), with worker, socket and peer timers all set to Tx
+pub fn fam_timeouts(b: &Base, silence: bool, out: &mut Vec<CaseSpec>) {
+    for tx in [1u64, 2, 11, 30, 59, 60, 61, 100, 255] {
+        let scale = |s: &mut CaseSpec| {
+            s.t_ns = tx * SEC;
+            s.read_timeout_ns = tx * SEC;
+            s.peer.timer_ns = tx * SEC;
+        };
+        if silence {
+            for j in 0..=b.peer_outs {
+                out.push(with(b, "timeouts", format!("T{tx}:silent-from#{j}"), |s| {
+                    scale(s);
+                    s.peer.silent_from = Some(j)
+                }));
+            }
+        } else {
+            let (ddir, adir) = if b.spec.role == Role::Send { (Dir::W2P, Dir::P2W) } else { (Dir::P2W, Dir::W2P) };
+            for abs in 1..=b.spec.nblocks() {
+                for r in [1u32, 5] {
+                    out.push(with(b, "timeouts", format!("T{tx}:data{abs}x{r}"), |s| {
+                        scale(s);
+                        s.rules.push(Rule::DropFirst { dir: ddir, is_data: true, abs, count: r })
+                    }));
+                    out.push(with(b, "timeouts", format!("T{tx}:ack{abs}x{r}"), |s| {
+                        scale(s);
+                        s.rules.push(Rule::DropFirst { dir: adir, is_data: false, abs, count: r })
+                    }));
+                }
+            }
+        }
+    }
+}
+
 /// single drops with different peer timers, so that either side times out first
 pub fn fam_timers(b: &Base, protect_handshake: bool, out: &mut Vec<CaseSpec>) {
     for (tp, tn) in [(T - 300 * MS, "Tp<T"), (T + 300 * MS, "Tp>T"), (2 * T, "Tp=2T"), (T / 2, "Tp=T/2")] {
